@@ -2,7 +2,7 @@
   FcProofs.Lemmas.Ladder — re-running one MeshFieldsComparator object (C19).
 -/
 import FcModel.Spec.C19
-namespace Fc
+namespace Fc.C19
 
 /-- What the re-run theorem assumes about the operations owned by other properties (all at the level of the
     comparison verdict, nothing about the data): `extend_space_dimension_to(m, ·)` yields dimension `m`;
@@ -109,4 +109,4 @@ theorem rerun_step (L : LadderOps D S) (F : LadderFacts L) (fl : CmpFlags) (st :
             simp [runComparator, h0, hx', hr, hs, h2] at this ⊢
             try exact this
 
-end Fc
+end Fc.C19
